@@ -24,7 +24,18 @@ Fixpoint find_map {A B} (f : A -> option B) (l : list A) : option B :=
   end.
 
 (* SvgNode::node_attribute / attribute::<SvgNode>: parse the (Func)IRI, then doc.element_by_id *)
+(* extension round 4, second pass: list-valued `filter` attributes.  The entries of filter="url(#a) blur(2) url(#b)"
+   are the attribute entries with key AFilter, in order: Some n = url(#n), None = a filter function.  A value without
+   any url entry is `none` / absent (function-only lists are outside the modelled fragment). *)
+Definition is_filter_key (kv : akey * option N) : bool := akey_eqb AFilter (fst kv).
+Definition flist (a : attrs) : list (option N) := map snd (filter is_filter_key a).
+Definition is_flist (k : akey) (a : attrs) : bool := akey_eqb k AFilter && Nat.ltb 1 (length (flist a)).
+Definition is_some {A} (o : option A) : bool := match o with Some _ => true | None => false end.
+
+(* SvgNode::node_attribute parses the value with svgtypes::FuncIRI::from_str (IRI for href), which rejects a list:
+   G_NODEATTR_FUNCIRI *)
 Definition node_attr (d : snode) (k : akey) (n : snode) : option snode :=
+  if G_NODEATTR_FUNCIRI && is_flist k (s_attrs n) then None else
   match attr_link k (s_attrs n) with Some nm => lookup d nm | None => None end.
 
 Definition has_link (k : akey) (n : snode) : bool :=
@@ -34,11 +45,11 @@ Definition has_link (k : akey) (n : snode) : bool :=
 (* (a) pre-pass                                                                                *)
 (* ------------------------------------------------------------------------------------------ *)
 
-(* doc.attrs[attribute_id(aid)].value = "none": the first attribute with that name *)
+(* doc.attrs[attribute_id(aid)].value = "none": the whole value, i.e. every entry of a list *)
 Fixpoint attrs_set_none (k : akey) (l : attrs) : attrs :=
   match l with
   | [] => []
-  | (k', v) :: r => if akey_eqb k k' then (k', None) :: r else (k', v) :: attrs_set_none k r
+  | (k', v) :: r => if akey_eqb k k' then (k', None) :: attrs_set_none k r else (k', v) :: attrs_set_none k r
   end.
 
 Fixpoint set_none (id : nat) (k : akey) (x : snode) : snode :=
@@ -119,10 +130,11 @@ Definition fe_image_ids (d : snode) : list nat :=
       if tag_eqb (s_tag fe) TFeImage then
         match node_attr d AHref fe with
         | Some link =>
-            match attr_link AFilter (s_attrs link) with
-            | Some u => if optN_eqb (Some u) (s_name p) then [s_id link] else []
-            | None => []
-            end
+            (* FilterValueListParser: one push per url entry that names the filter *)
+            flat_map (fun e => match e with
+                               | Some u => if optN_eqb (Some u) (s_name p) then [s_id link] else []
+                               | None => []
+                               end) (flist (s_attrs link))
         | None => []
         end
       else []) (s_kids p)) (sflat d).
@@ -250,7 +262,8 @@ Definition push (m : defmode) (st : cstate) (id : nat) : cstate :=
 Definition set_clip (st : cstate) : cstate :=
   {| st_defs := st_defs st; st_markers := st_markers st; st_clip := true |}.
 Definition guard_check (m : defmode) : bool :=
-  match m with MClip => G_CLIP_CHECK | MMask => G_MASK_CHECK | MFilter => G_FILTER_CHECK
+  (* G_FLIST_VIA_URL: every url entry of a filter list goes through convert_url with the caller's state *)
+  match m with MClip => G_CLIP_CHECK | MMask => G_MASK_CHECK | MFilter => G_FILTER_CHECK && G_FLIST_VIA_URL
              | MPattern => G_PATTERN_CHECK | MMarker => G_MARKER_CHECK end.
 (* G_STATE_ROOTS: no State literal / reset outside convert_doc and resolve_svg_size, so whatever was pushed stays pushed *)
 Definition guard_push (m : defmode) : bool :=
@@ -302,17 +315,28 @@ Definition g_finish (n : snode) (st : cstate) (items : list item) (hc hm hf : bo
   else if group_empty n items && negb hf then Done [] c
   else Done [IGroup (match is_g_or_use n, st_markers st with true, [] => s_name n | _, _ => None end) items] c.
 
+(* filter::convert: the loop over FilterValueListParser.  -> (a filter was produced, an url was invalid) *)
+Fixpoint flist_conv (es : list (option N)) (st : cstate) (bbox : bool) (got inv : bool) (c : cache) : cres (bool * bool) :=
+  match es with
+  | [] => Done (got, inv) c
+  | None :: r => flist_conv r st bbox (got || bbox) inv c        (* create_base_filter_func needs the object bbox *)
+  | Some u :: r =>
+      match lookup d u with
+      | Some l => bind (follow MFilter l st bbox c)
+                       (fun ok c' => if ok then flist_conv r st bbox true inv c' else flist_conv r st bbox got true c')
+      | None => flist_conv r st bbox got true c
+      end
+  end.
+
+(* converter::convert_group_filters + the tail of filter::convert: `if filters.is_empty() && has_invalid_urls { Err }`
+   drops the element (G_FLIST_DROP_RULE) *)
 Definition g_filter (n : snode) (st : cstate) (items : list item) (hc hm : bool) (c : cache) : cres (list item) :=
   if st_clip st then g_finish n st items hc hm false c else
-  match attr_get AFilter (s_attrs n) with
-  | Some (Some u) =>
-      match lookup d u with
-      | Some l => bind (follow MFilter l st (has_path items) c)
-                       (fun ok c' => if ok then g_finish n st items hc hm true c' else Done [] c')
-      | None => Done [] c
-      end
-  | _ => g_finish n st items hc hm false c
-  end.
+  let es := flist (s_attrs n) in
+  if negb (existsb is_some es) then g_finish n st items hc hm false c else
+  bind (flist_conv es st (has_path items) false false c)
+       (fun r c' => if (if G_FLIST_DROP_RULE then negb (fst r) && snd r else snd r) then Done [] c'
+                    else g_finish n st items hc hm (fst r) c').
 
 Definition g_mask (n : snode) (st : cstate) (items : list item) (hc : bool) (c : cache) : cres (list item) :=
   if st_clip st then g_filter n st items hc false c else
@@ -489,3 +513,43 @@ Definition parse_of (b : bstate * outcome snode) : presult :=
   | (_, OOut) => POutOfFuel
   end.
 Definition parse (x : xnode) : presult := parse_of (build x).
+
+(* ------------------------------------------------------------------------------------------ *)
+(* second pass: the chain walks of clippath::is_cacheable / mask::is_cacheable                  *)
+(*   let mut chain = vec![node];                                                                *)
+(*   while let Some(link) = chain.last().and_then(|n| n.attribute::<SvgNode>(AId::X)) {         *)
+(*       if chain.contains(&link) { break; }  chain.push(link); }                               *)
+(* and, for comparison, the same walk under the weaker guards found elsewhere (stop at the      *)
+(* current element / at the first element only).  `chain` is kept last-first.                   *)
+(* ------------------------------------------------------------------------------------------ *)
+Inductive wguard := WVisited | WSelf | WOrigin | WNone.
+
+Definition wstop (g : wguard) (origin curr link : snode) (chain : list snode) : bool :=
+  match g with
+  | WVisited => mem_nat (s_id link) (map s_id chain)
+  | WSelf => Nat.eqb (s_id link) (s_id curr)
+  | WOrigin => Nat.eqb (s_id link) (s_id curr) || Nat.eqb (s_id link) (s_id origin)
+  | WNone => false
+  end.
+
+(* -> (chain, ran out of fuel) *)
+Fixpoint chain_go (g : wguard) (fuel : nat) (d : snode) (k : akey) (origin curr : snode) (chain : list snode) : list snode * bool :=
+  match node_attr d k curr with
+  | None => (chain, false)
+  | Some link =>
+      if wstop g origin curr link chain then (chain, false)
+      else match fuel with
+           | O => (chain, true)
+           | S f => chain_go g f d k origin link (link :: chain)
+           end
+  end.
+
+Definition chain_guard (k : akey) : wguard :=
+  match k with
+  | AClip => if G_CLIP_CHAIN_VISITED then WVisited else WNone
+  | AMask => if G_MASK_CHAIN_VISITED then WVisited else WNone
+  | _ => WNone
+  end.
+(* is_cacheable's walk: fuel = number of elements of the document *)
+Definition chain_walk (d : snode) (k : akey) (n : snode) : list snode * bool :=
+  chain_go (chain_guard k) (length (sflat d)) d k n n [n].
